@@ -526,10 +526,25 @@ class ValuesUnderIntervals(Harness):
                         out.append(dict(genome=g, runs=runs, ivs=ivs, what=what))
         for ivs in combos["g2"]:
             out.append(dict(genome="g2", ivs=ivs, what="sequence"))
+        # sequence read through an indexed FASTA whose record order differs from the genome's chromosome order
+        # (records a, chr2, b_1, zz: the '_' contig is ignored by the genome, so zz has code 2 but is the 4th record)
+        for ivs in ([3], [0, 3], [3, 1]) + (([1, 3, 0],) if tier == "thorough" else ()):
+            out.append(dict(genome="fasta", ivs=ivs, what="sequence_fasta"))
         return out
+
+    FASTA_RECORDS = [[2, 2], [2, 2], [2, 2], [3, 3]]
 
     def inputs(self, skel, V):
         from checks.C09 import GENOMES, declare_track
+        if skel["what"] == "sequence_fasta":
+            for r, (rlen, width) in enumerate(self.FASTA_RECORDS):
+                for p in range(rlen):
+                    v = V.int(f"b{r}_{p}", 65, 84); V.assume(z_or([v.t == c for c in (65, 67, 71, 84)]))
+            for i, c in enumerate(skel["ivs"]):
+                s = V.int(f"s{i}", 0, self.FASTA_RECORDS[c][0] - 1); e = V.int(f"e{i}", 1, self.FASTA_RECORDS[c][0])
+                V.assume(s.t < e.t)
+                V.int(f"neg{i}", 0, 1)
+            return
         sizes = list(GENOMES[skel["genome"]].values())
         if skel["what"] != "sequence":
             declare_track(V, skel["runs"], sizes, "a")
@@ -542,7 +557,46 @@ class ValuesUnderIntervals(Harness):
             V.assume(s.t < e.t)
             V.int(f"neg{i}", 0, 1)
 
+    def _call_fasta(self, skel, x, ctx):
+        import os, tempfile
+        import bionumpy as bnp
+        import bionumpy.io.indexed_fasta as ifa
+        from checks import C17
+        from bionumpy.datatypes import StrandedInterval
+        from bionumpy.encoded_array import EncodedArray
+        from bionumpy.encodings import StrandEncoding
+        from bionumpy.genomic_data.genomic_sequence import GenomicSequence
+        content, rows = C17.layout(dict(records=self.FASTA_RECORDS))
+        data = C17.fill(content, x)
+        d = tempfile.mkdtemp(prefix="c10_")
+        fa = os.path.join(d, "mem.fa")
+        with open(fa + ".fai", "w") as fh:
+            for r in rows:
+                fh.write(f"{r['name']}\t{r['rlen']}\t{r['offset']}\t{r['lenc']}\t{r['lenb']}\n")
+        real_open = open
+        fobj = ctx.file(data)
+        ifa.open = lambda fn, mode="r", *a, **k: fobj if str(fn) == fa and "b" in mode else real_open(fn, mode, *a, **k)
+        try:
+            ix = ifa.IndexedFasta(fa)
+            g = bnp.Genome.from_dict({r["name"]: r["rlen"] for r in rows})        # ignores the '_' contig by default
+            gs = GenomicSequence.from_indexed_fasta(ix, g._genome_context)
+            m = len(skel["ivs"])
+            iv = StrandedInterval([C17.NAMES[c] for c in skel["ivs"]], ctx.arr([x[f"s{i}"] for i in range(m)], "int64"),
+                                  ctx.arr([x[f"e{i}"] for i in range(m)], "int64"),
+                                  EncodedArray(ctx.arr([x[f"neg{i}"] for i in range(m)], "uint8"), StrandEncoding))
+            out = gs[g.get_intervals(iv, stranded=True)]
+            from bionumpy.encoded_array import BaseEncoding, change_encoding
+            return dict(rows=[ctx.lst(change_encoding(out[i], BaseEncoding).raw()) for i in range(m)])
+        finally:
+            del ifa.open
+            try:
+                os.unlink(fa + ".fai"); os.rmdir(d)
+            except OSError:
+                pass
+
     def call(self, skel, x, ctx):
+        if skel["what"] == "sequence_fasta":
+            return self._call_fasta(skel, x, ctx)
         import bionumpy as bnp
         from checks.C09 import GENOMES, make_track
         from bionumpy.datatypes import StrandedInterval
@@ -580,6 +634,23 @@ class ValuesUnderIntervals(Harness):
         if isinstance(out, Exc):
             return False
         from checks.C09 import GENOMES, dense_terms
+        if skel["what"] == "sequence_fasta":
+            comp = lambda t: z3.If(t == 65, 84, z3.If(t == 84, 65, z3.If(t == 67, 71, 67)))
+            conj = []
+            if len(out["rows"]) != len(skel["ivs"]):
+                return False
+            for i, c in enumerate(skel["ivs"]):
+                col = [x[f"b{c}_{p}"].t for p in range(self.FASTA_RECORDS[c][0])]
+                s_, e_, neg = x[f"s{i}"].t, x[f"e{i}"].t, x[f"neg{i}"].t == 1
+                row = out["rows"][i]
+                conj.append(e_ - s_ == len(row))
+                for j in range(len(row)):
+                    fwd = z3.IntVal(-1); rev = z3.IntVal(-1)
+                    for p in range(len(col)):
+                        fwd = z3.If(s_ + j == p, col[p], fwd)
+                        rev = z3.If(e_ - 1 - j == p, comp(col[p]), rev)
+                    conj.append(TI(row[j]) == z3.If(neg, rev, fwd))
+            return z_and(conj)
         genome = GENOMES[skel["genome"]]
         names = list(genome)
         m = len(skel["ivs"])
@@ -618,6 +689,18 @@ class ValuesUnderIntervals(Harness):
         if isinstance(cout, Exc):
             return f"{skel}: raised {cout}"
         from checks.C09 import GENOMES, dense_py
+        if skel["what"] == "sequence_fasta":
+            from checks import C17
+            cm = {65: 84, 84: 65, 67: 71, 71: 67}
+            exp, wins = [], []
+            for i, c in enumerate(skel["ivs"]):
+                col = [cx[f"b{c}_{p}"] for p in range(self.FASTA_RECORDS[c][0])]
+                sub = col[cx[f"s{i}"]:cx[f"e{i}"]]
+                exp.append([cm[v] for v in reversed(sub)] if cx[f"neg{i}"] == 1 else sub)
+                wins.append((C17.NAMES[c], cx[f"s{i}"], cx[f"e{i}"], "+-"[cx[f"neg{i}"]]))
+            got = [[int(v) for v in r] for r in cout["rows"]]
+            return None if got == exp else (f"sequence under {wins} read through an indexed FASTA with records {C17.NAMES} (genome order a, chr2, zz; b_1 ignored): "
+                                            f"{[bytes(r).decode() for r in got]}, expected {[bytes(r).decode() for r in exp]}")
         genome = GENOMES[skel["genome"]]
         names = list(genome)
         m = len(skel["ivs"])
